@@ -99,8 +99,30 @@ def other_user(c):
         c.report("lock:other-user:holder-not-named", "the refusal does not name the holder (pid %s): %s" % (rec["holder_pid"], rec["probe_out"][:200]), {"other_user": True})
 
 
+def big_pid(c):
+    """A live holder whose process id has six digits (pid_max is 4194304 on 64-bit hosts) is still a live holder."""
+    out = os.path.join(c.scratch, "lock-bigpid.ndjson")
+    c.vh(["lock-bigpid", out, c.build_gitbug()], timeout=600)
+    rec = json.loads(open(out).readline())
+    c.cov["big_pid"] = {k: rec.get(k) for k in ("skipped", "why", "holder_pid", "admitted", "names_holder", "next_ok")}
+    if rec["skipped"]:
+        c.notes.append("the holder-with-a-six-digit-process-id scenario was skipped: %s" % rec.get("why"))
+        return
+    rep = {"big_pid": True}
+    if not rec["holder_alive"]:
+        raise Broken("the holder died during the probe: not evidence")
+    if rec["admitted"] or rec["lock_after"] != rec["lock_before"] or not rec["probe_failed"]:
+        c.report("lock:big-pid:live-lock-taken", "a second process was not refused while the holder (pid %s) lives: lock file %r -> %r; %s" % (
+            rec["holder_pid"], rec["lock_before"], rec["lock_after"], rec["probe_out"][:200]), rep)
+    elif not rec["names_holder"]:
+        c.report("lock:big-pid:holder-not-named", "the refusal does not name the holder (pid %s): %s" % (rec["holder_pid"], rec["probe_out"][:200]), rep)
+    elif not rec["next_ok"]:
+        c.report("lock:big-pid:stale-lock-kept", "after the holder (pid %s) is gone the next command is refused: %s" % (rec["holder_pid"], rec["next_out"][:200]), rep)
+
+
 def run(c):
     other_user(c)
+    big_pid(c)
     lock_window(c)
     close_window(c)
     d = c.specdir()
@@ -151,6 +173,8 @@ def replay(c, rep):
         return lock_window(c)
     if rep["replay"].get("other_user"):
         return other_user(c)
+    if rep["replay"].get("big_pid"):
+        return big_pid(c)
     mism, _ = run_scheds(c, [rep["replay"]["schedule"]], "replay")
     for m in mism:
         c.report(rep["key"], m["why"], rep["replay"])
